@@ -1,7 +1,7 @@
 """C11 — channels and signals: every message delivered once, in order, no stranded peer (structural part)."""
 from core import strip, strip_parens, is_field, order_ge, key_str, key_mentions
 from facts import AnalysisBroken
-from rules import (through_local, nodeset, callpred, atom_from, reach, ev, Unevaluable, ret_const, is_var_load)
+from rules import (check_init, through_local, nodeset, callpred, atom_from, reach, ev, Unevaluable, ret_const, is_var_load)
 from props import c01, c16
 
 EXPLANATION = (
@@ -291,3 +291,4 @@ def run(ctx):
     check_signal(ctx, P)
     check_bounded(ctx, P)
     check_multi(ctx, P)
+    check_init(ctx, P, "fiber_signal_init", [("fiber_signal", "waiter", 0)])
